@@ -3,10 +3,10 @@ import os, re, subprocess, sys
 from vlib import common as C
 from vlib.simlib import SIM_WRAPS
 
-# clean (exit 0) at seeds 1..5 quick on 2026-09-26 with the 16-scenario catalogue + observer scripts
+# clean (exit 0) at seeds 1..5 quick on 2026-09-26 with the 17-scenario catalogue + generated b1o orders + observer / atrack / asrcv scripts
 MANIFEST = {
     "category": "proof",
-    "text": "PROOF for the helper layer and the send-path skeleton, FAULT ENUMERATION for the catalogue. Proved in Lean for every "
+    "text": "PROOF for the helper layer, the send-path skeleton, Observe registration and two containers of the Block layer, FAULT ENUMERATION for the catalogue. Proved in Lean for every "
             "allocation oracle (any pattern of failing requests) and all arguments, about a transcription M of coap_pdu_init / "
             "coap_pdu_resize / coap_pdu_check_resize / coap_add_token / coap_add_option (append branch) / coap_add_data / "
             "coap_new_optlist+insert / coap_delete_optlist / coap_add_optlist_pdu / coap_new_string|str_const|bin_const and of the "
@@ -21,26 +21,47 @@ MANIFEST = {
             "subscriptions, so no failing request leaves a reference without holder or a holder without reference), "
             "add_observer_spec (NULL => subscriber list, reference count and ledger exactly as before; success => one subscription, "
             "one reference, exactly its four objects), add_observer_succeeds_with_memory (all-true oracle: a registration whose token "
-            "and options fit succeeds), deleteObserver_spec, pduDuplicate_live. M is tied to the compiled code by running generated "
+            "and options fit succeeds), deleteObserver_spec, pduDuplicate_live. Also in M (Model/AllocBlock.lean) and proved for every "
+            "oracle, two containers of the Block layer: (a) the client's lg_crcv with its list of Observe tokens of a large FETCH "
+            "(coap_block_new_lg_crcv, track_fetch_observe, coap_block_delete_lg_crcv): obs_token_cnt_within_list (EVERY call "
+            "sequence: the count never exceeds the allocated list, a NULL list has count 0, no call and no tear-down touches memory "
+            "outside the list), track_realloc_failure_atomic, lg_crcv_ledger_sound (call sequences the callers can produce: nothing "
+            "released twice, nothing live after the lg_crcv is deleted), lg_crcv_new_succeeds_with_memory; (b) the server's lg_srcv "
+            "of a Block1 transfer with the body under reassembly and the token of an early final block "
+            "(coap_handle_request_put_block in SINGLE_BODY mode, coap_block_build_body, coap_block_delete_lg_srcv): "
+            "lg_srcv_ledger_sound (EVERY sequence of Block1 requests -- any order, repeats, the final block early and again -- : "
+            "nothing released twice, live objects = exactly lg_srcv + body + last_token at any time, nothing live once it is "
+            "deleted), lg_srcv_failure_drops_state (an answer 5.00 leaves no transfer state), lg_srcv_restart_succeeds. "
+            "M is tied to the compiled code by running generated "
             "helper scripts under every single failing request index (and sampled pairs) on both and comparing return values, request "
             "counts, PDU bytes, alloc_size, queues, the session's reference count, the subscriber list, the request kept with a subscription "
-            "and the allocation trace event by event. NOT proved, enumerated only (OBSERVATION of the real code against the property text, no theorem): the 16 scenarios "
+            "and the allocation trace event by event; the two containers by generated `atrack` / `asrcv` scripts that call the real "
+            "coap_block_new_lg_crcv / track_fetch_observe / coap_block_delete_lg_crcv and coap_handle_request_put_block / "
+            "coap_block_delete_lg_srcv directly (src/coap_block.c is #included by the harness) under every single failing request "
+            "index: return values, request counts, count and entries of the token list, received ranges / total / body length / "
+            "no_more_seen / last_token of the lg_srcv, trace. NOT proved, enumerated only (OBSERVATION of the real code against the property text, no theorem): the 17 scenarios "
             "uri, pdu, request/response, Block1, Block2, observe, set-up/tear-down, OSCORE, 5.08, /.well-known/core of a 17-resource "
             "server (block-wise, with filters), hand-built Block1 upload without Size1 (in and out of order), hand-written Block2 "
             "server without Size2 (no ETag / ETag / changing ETag), block-wise observe, cache entries with app data, async, observer life "
             "cycle (FETCH registration with payload, re-registration under a new token, second subscription, deregistration by an "
-            "unknown token, resource deleted while observed) are run on "
-            "the real code with every single allocation request failing (about 1570 runs; thorough: every pair, capped at 40000 per scenario), "
+            "unknown token, resource deleted while observed), FETCH observations with the client's block handling on (small body, "
+            "2500-byte body sent block-wise, coap_cancel_observe of both; a cancel that failed because of the failing request is "
+            "repeated and must then succeed), and the five hand-built Block1 requests in GENERATED orders with repeated blocks "
+            "(b1o.<order>: the final block early, again before the gap is filled, a block after the end) are run on "
+            "the real code with every single allocation request failing (about 2500 runs; thorough: every pair, capped at 40000 per scenario, 1500 per generated order), "
             "each followed by a canary exchange on the same contexts, and "
             "judged by ASan/UBSan, the verified ledger monitor on the REAL allocation trace, LSan, PDU-consumed evidence, the canary, "
             "and SESSION-REFERENCE ACCOUNTING after the canary: every session's reference count equals the number of its holders "
             "(application, subscriptions, async entries, send-queue nodes) and every server session nothing holds is reclaimed "
             "once the session timeout has passed in virtual time (a leaked reference is invisible to the ledger: tear-down drops it); "
             "this searches for a failing (scenario, k) and validates nothing beyond what it executes.",
-    "note": "Twenty libcoap defects found and fixed on the way (KNOWN_FINDINGS.txt, fixed: property=C18; the last three: coap_add_observer "
-            "kept a subscription whose FETCH request had lost its body, coap_pdu_duplicate returned a copy without token, "
-            "coap_register_async kept a request that had lost its body); no open "
-            "finding. TCP/TLS/WS "
+    "note": "Twenty-three libcoap defects found and fixed on the way (KNOWN_FINDINGS.txt, fixed: property=C18; the last three: "
+            "coap_cancel_observe sent the cancellation of a large FETCH without its body when the body could not be set up, a "
+            "coap_cancel_observe that failed could never be repeated, an lg_crcv set up from a sent PDU kept its lg_xmit reference: "
+            "use after free in coap_cancel_observe); no open "
+            "finding. The ledger theorem of the lg_crcv assumes the discipline of track_fetch_observe's callers (block numbers of "
+            "one lg_crcv only go up; outside it the real code leaks tokens WITHOUT any allocation failure -- Echo repeat in the "
+            "middle of a block-wise FETCH --, not this property's subject; memory safety is proved without the assumption). TCP/TLS/WS "
             "sessions, Q-Block and proxy paths are not in the catalogue. Only requests made "
             "through coap_malloc_type/coap_realloc_type are failed (uthash's malloc exits on OOM; GnuTLS/libc untouched). Trusted: "
             "Lean kernel (+ propext, Classical.choice, Quot.sound), harness + allocator wrap + virtual-time epoll_wait + judge, "
@@ -52,7 +73,9 @@ NAMESPACE = "Coap.C18"
 REQUIRED_THEOREMS = ["failure_atomic", "no_leak_on_failure", "send_consumes_pdu", "send_error_keeps_slot", "next_op_succeeds",
                      "alloc_count_matches", "ledger_replay", "script_ledger_ok", "script_verdict",
                      "observer_refs_balanced", "observer_refs_count", "add_observer_spec", "createSub_spec", "deleteObserver_spec",
-                     "pduDuplicate_live", "addObserver_balanced", "add_observer_succeeds_with_memory"]
+                     "pduDuplicate_live", "addObserver_balanced", "add_observer_succeeds_with_memory",
+                     "obs_token_cnt_within_list", "track_realloc_failure_atomic", "lg_crcv_ledger_sound", "lg_srcv_ledger_sound",
+                     "lg_srcv_failure_drops_state", "lg_srcv_restart_succeeds", "lg_crcv_new_succeeds_with_memory"]
 RULE = ("(1) helper-layer scripts `ahelp k1 k2 <ops>`: random sequences (4..16 calls) of coap_pdu_init / add_token / add_option "
         "(ascending numbers, lengths on both sides of 12/13, 268/269) / add_data / pdu_resize / pdu_check_resize / delete_pdu / "
         "new_optlist+insert_optlist / add_optlist_pdu / delete_optlist / new_string|str_const|bin_const / delete / coap_send "
@@ -63,15 +86,27 @@ RULE = ("(1) helper-layer scripts `ahelp k1 k2 <ops>`: random sequences (4..16 c
         "number of requests, PDU bytes, alloc_size, queues, session reference count / subscriber tokens / the request kept with "
         "the first subscription and the allocation trace must be equal (and, against the property itself: reference count = "
         "number of subscriptions, every subscription under a token a successful call was given); "
-        "(2) fault ENUMERATION of the catalogue scenarios (harness/allocfail.c): uri, pdu, rr, b1, b2, obs, setup, osc, h508, "
+        "(1b) container scripts under EVERY single failing request index (and sampled pairs) on the real code and on M: "
+        "`atrack k1 k2 <steps>` = coap_block_new_lg_crcv (FETCH / GET, Observe 0 / 1 / 2 / absent, token 0..8 bytes) / "
+        "track_fetch_observe (register with block numbers going up by 0,1,2,3,7,40, look-ups on both sides of the count, other "
+        "Observe values) / coap_block_delete_lg_crcv / start again; `asrcv k1 k2 <szx> <bodylen> <tl> <size1|-> <steps>` = "
+        "coap_handle_request_put_block for a body of 3..6 blocks of 16 / 64 / 512 bytes arriving in a generated order (repeats, "
+        "the final block early and again before the gap is filled, a block missing, blocks after the end, short blocks, wrong "
+        "More bit, the state dropped in between), no / exact / too small / too large Size1, token 0..8 bytes: return values, "
+        "request counts, token list, lg_srcv fields and the allocation trace must be equal; against the property itself: no "
+        "abort, ledger and LSan clean, never a count with a NULL list, a body handed over is the body sent; "
+        "(2) fault ENUMERATION of the catalogue scenarios (harness/allocfail.c): uri, pdu, rr (incl. error responses to requests with a query), b1, b2, obs, setup, osc, h508, "
         "wkc (12 more resources with attributes, GET /.well-known/core unfiltered / rt=temp* / if=core.p / no match, block-wise), "
         "b1raw (five hand-built 512-byte Block1 requests without Size1, in order and in the order 0,2,1,4,3, to a SINGLE_BODY "
         "server), b2raw (libcoap client against a hand-written Block2 server side without Size2: no ETag, ETag, ETag changing "
         "once), obsblk (observe of a 3-block body: registration, 2 notifications, cancel), cache (coap_cache_ignore_options, "
         "derive_key, new_cache_entry with recorded PDU and app data, lookup, expiry, tear-down), async (coap_register_async, "
         "coap_async_trigger, timer; GET and a PUT whose payload the delayed call must still see), obsre (observer life cycle: FETCH registration with payload, the same request under a new "
-        "token, a second subscription, deregistration by a token the server never saw, coap_delete_resource while observed): every single failing request index k (quick and thorough) and pairs (k, k2) (quick: a "
-        "seeded sample of 4000, thorough: every pair of a scenario up to 40000 per scenario, i.e. at present all 120833 pairs; a seeded sample beyond), each "
+        "token, a second subscription, deregistration by a token the server never saw, coap_delete_resource while observed), obsfetch "
+        "(FETCH observations with the client's block handling on: 2-byte and 2500-byte body, notifications, coap_cancel_observe of both, "
+        "a cancel that failed because of the failing request repeated), b1o.<order> (the five hand-built Block1 requests in 2 fixed and "
+        "5 generated orders with repeated blocks; thorough 6): every single failing request index k (quick and thorough) and pairs (k, k2) (quick: a "
+        "seeded sample of 4000, thorough: every pair of a scenario up to 40000 per scenario, 1500 per generated order; a seeded sample beyond), each "
         "followed by a canary exchange, judged by ASan/UBSan, the Lean-verified ledger monitor on the real allocation trace, "
         "LSan, PDU-consumed evidence, 'a 2.xx body that claims to be complete is the body' (obsre: 'a notification is computed "
         "from the request the subscription was registered with'), the canary, and after the canary: reference count of every "
@@ -85,6 +120,12 @@ TRUSTED_BASE = ["Lean 4.33 kernel; axioms allowed: propext, Classical.choice, Qu
                 "M (CoapVerif/Model/AllocOracle.lean) is a hand transcription of the helper layer, of the ownership skeleton "
                 "of the send path and of coap_add_observer / coap_delete_observer / coap_pdu_duplicate; checked against the compiled "
                 "code only on the scripts run; SHA-256 of the cache key is abstracted to its input (no collision among the keys of a script)",
+                "M (CoapVerif/Model/AllocBlock.lean) is a hand transcription of coap_block_new_lg_crcv / track_fetch_observe / "
+                "coap_block_delete_lg_crcv and of the ownership side of coap_handle_request_put_block / coap_block_build_body / "
+                "coap_block_delete_lg_srcv (which blocks have arrived is decided by C09's model functions recvLoop / "
+                "checkAllBlocksIn); harness/allocfail.c #includes src/coap_block.c to reach the static function, so the whole "
+                "catalogue runs the harness's compilation of that file (same source, -O1)",
+                "T1 extractor extract/blockconst.c (COAP_RBLOCK_CNT used by the lg_srcv model)",
                 "the holder count of the reference accounting is computed by the harness from libcoap's own lists (send queue, "
                 "subscribers of every resource, async list) -- the list of who may hold a session reference is read from the source",
                 "T1 extractor extract/repeatable.c (non-repeatable option table used by coap_add_option)"]
@@ -100,6 +141,12 @@ ASSUMPTIONS = ["PROVED only for the helper layer (PDU init/resize/token/option/d
                "of the key), no observe_added / observe_deleted callbacks, COAP_RESOURCE_MAX_SUBSCRIBER = 0; add_observer_spec's ledger "
                "part is stated for the case that no subscription is replaced (the replaced one is covered by deleteObserver_spec "
                "and observer_refs_balanced)",
+               "lg_crcv model: lg_xmit == NULL, no body under reassembly; its ledger theorem is for call sequences inside the callers' "
+               "discipline (`feasible`: block numbers registered for one lg_crcv only go up, block 0 again only while no later "
+               "block is registered) -- the bounds theorem obs_token_cnt_within_list needs no such assumption",
+               "lg_srcv model: Block1 without BERT / Q-Block, COAP_BLOCK_SINGLE_BODY, blocks in any order allowed, one resource of "
+               "its own (no uri_path copy), no Request-Tag, one block size per transfer, tokens of at most 8 bytes of equal length "
+               "(the separate 2.31 copies a response without options: two requests)",
                "compiled Lean definitions agree with the kernel's reading of them"]
 SPEC_DECISIONS = ["D18a 'the next operation with memory available succeeds' is checked by a canary CON GET on the SAME contexts after the "
                   "outstanding exchanges have run their course in virtual time (retransmissions included), on fresh ones when "
@@ -110,12 +157,17 @@ SPEC_DECISIONS = ["D18a 'the next operation with memory available succeeds' is c
 RUN_KW = {"timeout": 1800, "env": {"ASAN_OPTIONS": "detect_leaks=1:abort_on_error=0:exitcode=86:allocator_may_return_null=1:leak_check_at_exit=0"}}
 WRAPS = SIM_WRAPS + ["coap_malloc_type", "coap_realloc_type", "coap_free_type", "epoll_wait"]
 PAIR_CAP = 40000        # thorough: pairs per scenario (every pair below it, a seeded sample above)
-SCENARIOS = ["uri", "pdu", "rr", "b1", "b2", "obs", "setup", "osc", "h508", "wkc", "b1raw", "b2raw", "obsblk", "cache", "async", "obsre"]
+B1O_PAIR_CAP = 1500     # ... per generated b1o.<order> scenario (their single failures are all run)
+SCENARIOS = ["uri", "pdu", "rr", "b1", "b2", "obs", "setup", "osc", "h508", "wkc", "b1raw", "b2raw", "obsblk", "cache", "async", "obsre",
+             "obsfetch"]
+# parametrised scenario b1o.<digits>: the five hand-built Block1 requests of b1raw in a generated order (repeats allowed);
+# these two always run (the final block early, and again before the gap is filled / a repeated middle block, a block after the end)
+B1O_FIXED = ["b1o.0442130", "b1o.4400123312"]
 # visible outcome of every scenario when no request fails (k = 0)
 EXPECT0 = {
     "uri": "split0,u2o1,u2os0,p2o1,q2o1,ins1,olpdu1,path9,query8,str1111,rsz1,uri11,req0,rsp0,nack0,body0/0,put0/0",
     "pdu": "tok1,o202,o122,o6,o152,o6,d1,dup11,used498,used342,parse1,req0,rsp0,nack0,body0/0,put0/0",
-    "rr": "req2,rsp3,c2.05,c2.05,c4.04,nack0,body0/0,put0/0",
+    "rr": "req2,rsp4,c2.05,c2.05,c4.04,c4.05,nack0,body0/0,put0/0",
     "b1": "req1,rsp1,c2.04,nack0,body0/0,put1/0",
     "b2": "req1,rsp1,c2.05,nack0,body1/0,put0/0",
     "obs": "notify1,notify1,cancel1,notify0,req4,rsp4,c2.05,c2.05,c2.05,c2.05,nack0,body0/0,put0/0",
@@ -129,19 +181,57 @@ EXPECT0 = {
     "cache": "ign1,ign1,cb1,key11,ent1,pdu313,bykey1,bypdu1,other1,req3,rsp3,c2.01,c2.05,c2.01,nack0,body0/0,put0/0",
     "async": "pending1,req6,rsp3,c2.05,c2.05,c2.05,nack0,body0/0,put0/0",
     "obsre": "subs1,notify1,subs2,notify1,subs1,notify1,delres1,req8,rsp9,c2.05,c2.05,c2.05,c2.05,c2.05,c2.05,c2.05,c2.05,c4.04,nack0,body0/0,put0/0",
+    "obsfetch": "subs1,notify1,subs2,notify1,cancel1,subs1,cancel1,subs0,notify0,req7,rsp7,c2.05,c2.05,c2.05,c2.05,c2.05,c2.05,c2.05,nack0,body0/0,put0/0",
 }
+
+
+def b1o_puts(order):
+    """how many complete bodies the PUT handler sees when the five blocks (4 = the final one) arrive in this order: a body is
+    handed over when all five are in, then the transfer state is gone and the next block starts a new one"""
+    seen, puts = set(), 0
+    for d in order:
+        seen.add(int(d))
+        if len(seen) == 5:
+            puts += 1
+            seen = set()
+    return puts
+
+
+def gen_b1o(rng):
+    """an order of the five blocks that completes the body exactly at its end, with 1..3 blocks repeated before that (lost
+    ACK / retransmission under a new token); two thirds have the FINAL block early, half of those repeat it before the gap
+    is filled; sometimes one more block follows the completed body (a transfer that is never finished)"""
+    perm = [0, 1, 2, 3, 4]
+    rng.shuffle(perm)
+    if rng.random() < 0.66 and perm[-1] == 4:
+        i = rng.randrange(0, 4)
+        perm[i], perm[4] = perm[4], perm[i]
+    order = list(perm)
+    dups = rng.randint(1, 3)
+    if perm[-1] != 4 and rng.random() < 0.5:
+        at = order.index(4)
+        order.insert(rng.randint(at + 1, len(order) - 1), 4)
+        dups -= 1
+    for _ in range(dups):
+        j = rng.randrange(0, len(order) - 1)
+        order.insert(rng.randint(j + 1, len(order) - 1), order[j])
+    if rng.random() < 0.3:
+        order.append(rng.randrange(0, 5))
+    return "b1o." + "".join(str(d) for d in order)
 
 
 def extract(ctx):
     import props.C01 as c01          # M uses Generated.nonRepeatable (coap_option_check_repeatable)
-    return c01.extract(ctx)
+    import props.C09 as c09          # the lg_srcv model uses Generated.rblockCnt (COAP_RBLOCK_CNT)
+    return c01.extract(ctx) + c09.extract(ctx)
 
 
 def _binary():
     bdir = C.build_libcoap()
     out = os.path.join(bdir, "h_allocfail")
-    core = os.path.join(C.VERIF, "harness", "sim_core.h")
-    if os.path.exists(out) and os.path.getmtime(core) > os.path.getmtime(out):
+    # sim_core.h and src/coap_block.c are #included by the harness
+    deps = [os.path.join(C.VERIF, "harness", "sim_core.h"), os.path.join(C.REPO, "src", "coap_block.c")]
+    if os.path.exists(out) and max(os.path.getmtime(d) for d in deps) > os.path.getmtime(out):
         os.unlink(out)
     return C.build_harness("allocfail", bdir, wraps=WRAPS)
 
@@ -240,27 +330,112 @@ def gen_script(rng):
     return ops, bound
 
 
+
+def gen_track(rng):
+    """an `atrack` script inside the callers' discipline: the block numbers of one transfer only go up (coap_handle_response_send_block:
+    block.num > last_block), block 0 comes again (the Echo repeat of check_freshness) only while at most one token is kept;
+    Observe 0 / 1 / 2 / absent, FETCH and GET, cancel look-ups on both sides of the count, delete and start again.
+    Returns (steps, bound on the number of requests)"""
+    steps, bound = [], 0
+    have, hi = False, 0           # hi = largest block number registered so far + 1
+    for _ in range(rng.choice([3, 4, 6, 8, 10])):
+        c = rng.random()
+        if not have or c < 0.08:
+            o = rng.choice("eeeeeecxn")
+            steps.append("n%s:%s:%d:%d" % (rng.choice("ffffg"), o, rng.choice([0, 1, 2, 4, 8]), rng.choice([0, 2, 40])))
+            bound += 5
+            if not have:
+                hi = 0
+            have = True
+            hi = max(hi, 1)
+        elif c < 0.62:
+            bn = 0 if (hi <= 1 and rng.random() < 0.3) else max(hi - 1, 0) + rng.choice([0, 1, 1, 1, 1, 2, 3, 7, 40])
+            if bn + 1 < hi:
+                bn = hi - 1
+            steps.append("te:%d:%d" % (bn, rng.choice([1, 2, 7, 8, 8])))
+            hi = max(hi, bn + 1)
+            bound += 2
+        elif c < 0.82:
+            steps.append("tc:%d:2" % max(0, hi + rng.choice([-3, -2, -1, -1, 0, 0, 1, 5])))
+        elif c < 0.90:
+            steps.append("t%s:%d:3" % (rng.choice("xn"), rng.randrange(0, hi + 2)))
+        else:
+            steps.append("d")
+            have, hi = False, 0
+    return steps, bound
+
+
+def gen_srcv(rng):
+    """an `asrcv` script: a body of 3..6 blocks (16 / 64 / 512 bytes, last one shorter or full) arriving in a generated order --
+    repeated blocks, the final block early and again, blocks missing, a block after the end, short blocks, the state dropped
+    in between --, without Size1 or with an exact / too small / too large one.  Returns (head, steps, bound)"""
+    szx = rng.choice([0, 2, 5, 5])
+    chunk = 1 << (szx + 4)
+    nb = rng.randint(3, 6 if szx < 5 else 5)
+    last = rng.choice([1, chunk // 2, chunk - 1, chunk])
+    if szx == 5 and nb == 5:
+        last = min(last, 452)
+    blen = (nb - 1) * chunk + last
+    tl = rng.choice([0, 1, 2, 4, 8, 8])
+    size1 = rng.choice(["-", "-", "-", str(blen), str(chunk), str(blen + 100), "0"])
+    perm = list(range(nb))
+    rng.shuffle(perm)
+    if rng.random() < 0.6 and perm[-1] == nb - 1:
+        i = rng.randrange(0, nb - 1)
+        perm[i], perm[-1] = perm[-1], perm[i]
+    order = list(perm)
+    if perm[-1] != nb - 1 and rng.random() < 0.6:
+        at = order.index(nb - 1)
+        order.insert(rng.randint(at + 1, len(order) - 1), nb - 1)
+    for _ in range(rng.randint(0, 3)):
+        j = rng.randrange(0, len(order) - 1)
+        order.insert(rng.randint(j + 1, len(order) - 1), order[j])
+    if rng.random() < 0.25:
+        order.pop(rng.randrange(len(order)))            # a block never arrives (or one repeat fewer)
+    if rng.random() < 0.3:
+        order += [rng.randrange(0, nb) for _ in range(rng.randint(1, 3))]
+    steps = []
+    for b in order:
+        m = 0 if b == nb - 1 else 1
+        r = rng.random()
+        if r < 0.05:
+            steps.append("p%d:%d:%d" % (b, m, rng.choice([0, 1, chunk - 1])))      # short block: 4.00 with More, a short end without
+        elif r < 0.08:
+            steps.append("p%d:%d" % (b, 1 - m))                                     # More bit wrong
+        else:
+            steps.append("p%d:%d" % (b, m))
+        if rng.random() < 0.05:
+            steps.append("x")
+    return "%d %d %d %s" % (szx, blen, tl, size1), steps, 3 * len(steps) + 2
+
+
 def generate(ctx, escalate=False):
     rng = ctx.rng
     out = []
     thorough = ctx.thorough() or escalate
     # (2) catalogue: count the requests of every scenario first (k = 0), then every single k, then pairs
-    base = _run_direct(["alloc %s 0" % s for s in SCENARIOS])
+    scenarios = list(SCENARIOS) + B1O_FIXED
+    while len(scenarios) < len(SCENARIOS) + len(B1O_FIXED) + (6 if thorough else 5):
+        o = gen_b1o(rng)
+        if o not in scenarios:
+            scenarios.append(o)
+    base = _run_direct(["alloc %s 0" % s for s in scenarios])
     counts = {}
-    for s, b in zip(SCENARIOS, base):
+    for s, b in zip(scenarios, base):
         m = re.match(r"n=(\d+) ", b or "")
         counts[s] = int(m.group(1)) if m else 0
     ctx.cov["allocation_requests_per_scenario"] = dict(counts)
-    for s in SCENARIOS:
+    for s in scenarios:
         out.append("alloc %s 0" % s)
         out += ["alloc %s %d" % (s, k) for k in range(1, counts[s] + 1)]
     pairs = []
     ctx.cov["pairs_total"] = 0
-    for s in SCENARIOS:
+    for s in scenarios:
         ps = [(s, a, b) for a in range(1, counts[s] + 1) for b in range(a + 1, counts[s] + 1)]
         ctx.cov["pairs_total"] += len(ps)
-        if len(ps) > PAIR_CAP:                     # thorough: every pair of a scenario up to PAIR_CAP, a seeded sample beyond
-            ps = rng.sample(ps, PAIR_CAP)
+        cap = B1O_PAIR_CAP if s.startswith("b1o.") else PAIR_CAP
+        if len(ps) > cap:                          # thorough: every pair of a scenario up to the cap, a seeded sample beyond
+            ps = rng.sample(ps, cap)
         pairs += ps
     if not thorough:
         pairs = rng.sample(pairs, min(len(pairs), 4000))
@@ -279,6 +454,20 @@ def generate(ctx, escalate=False):
                 a = rng.randrange(1, bound)
                 b = rng.randrange(a + 1, bound + 1)
                 out.append("ahelp %d %d %s" % (a, b, body))
+    # (1b) Block-layer containers: the lg_crcv's list of Observe tokens, the lg_srcv's body and early-final-block token
+    for op, gen, nsc in (("atrack", gen_track, 240 if thorough else 40), ("asrcv", gen_srcv, 400 if thorough else 70)):
+        for _ in range(nsc):
+            r = gen(rng)
+            head, steps, bound = (r[0] + " ", r[1], r[2]) if len(r) == 3 else ("", r[0], r[1])
+            body = head + " ".join(steps)
+            out.append("%s 0 0 %s" % (op, body))
+            for k in range(1, bound + 1):
+                out.append("%s %d 0 %s" % (op, k, body))
+            for _ in range(6 if thorough else 2):
+                if bound >= 2:
+                    a = rng.randrange(1, bound)
+                    b = rng.randrange(a + 1, bound + 1)
+                    out.append("%s %d %d %s" % (op, a, b, body))
     return out
 
 
@@ -304,7 +493,7 @@ def site_of(impl):
 
 
 def symptoms(c):
-    """what is wrong with a catalogue run, as a dict {class: detail}; classes: crash, ledger, lsan, consumed, canary, refs, idle, body, baseline"""
+    """what is wrong with a catalogue run, as a dict {class: detail}; classes: crash, ledger, lsan, consumed, canary, refs, idle, retry, body, baseline"""
     i = c["impl"] or ""
     w = c["input"].split()
     scn = w[1]
@@ -331,10 +520,18 @@ def symptoms(c):
     if f.get("idle", "0") != "0":
         what["idle"] = ("%s server session(s) that nothing holds survive the session timeout (never reclaimed as idle)" % f.get("idle"))
     out = f.get("out", "")
+    if re.search(r"cancelr0:kept(,|$)", out):
+        what["retry"] = ("coap_cancel_observe failed because one of its own allocation requests failed, and the SAME call made again "
+                         "with memory available fails too while the server still holds the subscription: the observation can no "
+                         "longer be cancelled through the API")
     m = re.search(r"body(\d+)/(\d+),put(\d+)/(\d+)", out)
     if m and (int(m.group(2)) or int(m.group(4))):
         what["body"] = "the application was handed a truncated or wrong body as if it were complete (%s)" % m.group(0)
-    if all(k == 0 for k in ks) and out != EXPECT0.get(scn):
+    if all(k == 0 for k in ks) and scn.startswith("b1o."):
+        want = "put%d/0" % b1o_puts(scn[4:])
+        if not out.endswith("nack0,body0/0," + want) or "fail" in out:
+            what["baseline"] = "without any failing request the scenario's outcome is `%s`, expected `…nack0,body0/0,%s`" % (out, want)
+    elif all(k == 0 for k in ks) and out != EXPECT0.get(scn):
         what["baseline"] = "without any failing request the scenario's outcome is `%s`, expected `%s`" % (out, EXPECT0.get(scn))
     return what
 
@@ -394,26 +591,61 @@ def judge_help(c):
     return None
 
 
+def judge_block(c):
+    """atrack / asrcv: the real container code against the property (abort, ledger, leak, a count that says there are entries
+    in a list that is NULL, a wrong body handed over), then against M field by field"""
+    i, m = c["impl"] or "", c["model"] or ""
+    w = c["input"].split()
+    what = "the lg_crcv's list of Observe tokens" if w[0] == "atrack" else "the lg_srcv of a Block1 transfer"
+    if i.startswith("crash"):
+        return ("spec", "%s under failing request(s) %s (%s): the real code aborted (%s)" % (what, w[1:3], site_of(i), i))
+    if i == "bad-op" or m == "bad-op":
+        return None if i == m else ("tie", "bad-op on one side only: impl %s model %s" % (i[:40], m[:40]))
+    fi, fm = fields(i), fields(m)
+    if not fi.get("ledger", "").startswith("true"):
+        return ("spec", "%s under failing request(s) %s (%s): the real allocation trace is rejected by the verified monitor ledgerOk: %s"
+                % (what, w[1:3], site_of(i), fi.get("ledger")))
+    if fi.get("lsan", "0") != "0":
+        return ("spec", "%s under failing request(s) %s (%s): LeakSanitizer reports a leak" % (what, w[1:3], site_of(i)))
+    if "NULL!" in fi.get("tab", ""):
+        return ("spec", "%s under failing request(s) %s (%s): obs_token_cnt says there are entries while the list is NULL (tab=%s): the next "
+                "walk over the list (coap_block_delete_lg_crcv, an Observe cancel) dereferences NULL" % (what, w[1:3], site_of(i), fi.get("tab")))
+    bad = [r for r in fi.get("rc", "").split(",") if re.fullmatch(r"d\d+:0", r)]
+    if bad:
+        return ("spec", "%s under failing request(s) %s (%s): the PUT handler is given a body that is not the body sent (%s)"
+                % (what, w[1:3], site_of(i), bad[0]))
+    if "unmodelled" in fm.get("rc", "") or "INVALID" in fm.get("rc", "") or "infeasible" in fm.get("rc", ""):
+        return ("tie", "the script left M's domain (generator defect): %s" % fm.get("rc"))
+    if fm.get("ledger") != "ok":
+        return ("tie", "model M's own ledger is not clean: %s" % fm.get("ledger"))
+    for k in ["rc", "n", "tab", "lg", "T"]:
+        if fi.get(k) != fm.get(k):
+            return ("tie", "%s: %s: implementation `%s` but model M `%s`" % (what, k, (fi.get(k) or "")[:200], (fm.get(k) or "")[:200]))
+    return None
+
+
 def judge(ctx, c):
     op = c["input"].split(" ", 1)[0]
     if op == "alloc":
         return judge_alloc(c)
     if op == "ahelp":
         return judge_help(c)
+    if op in ("atrack", "asrcv"):
+        return judge_block(c)
     return None if (c["impl"] == "bad-op" and c["model"] == "bad-op") else ("tie", "unknown op")
 
 
 def nontrivial(c):
     i = c["impl"] or ""
-    return "fail=-" not in i and "fail=" in i or ("ahelp" in c["input"] and c["input"].split()[1] != "0" and "rc=" in i)
+    return "fail=-" not in i and "fail=" in i or (c["input"].split()[0] in ("ahelp", "atrack", "asrcv") and c["input"].split()[1] != "0" and "rc=" in i)
 
 
 def classify(c):
     w = c["input"].split()
     if w[0] == "alloc":
-        return "%s:%s" % (w[1], "none" if w[2] == "0" else "single" if len(w) == 3 else "pair")
+        return "%s:%s" % (w[1].split(".")[0], "none" if w[2] == "0" else "single" if len(w) == 3 else "pair")
     k = sum(1 for x in w[1:3] if x != "0")
-    return "ahelp:%s" % ["none", "single", "pair"][k]
+    return "%s:%s" % (w[0], ["none", "single", "pair"][k])
 
 
 # ------------------------------------------------------------------ known findings: (scenario, requesting function, what happens)
@@ -441,6 +673,12 @@ def search(ctx, tie_breaks, proof):
     out = []
     for c in tie_breaks[:20]:
         w = c["input"].split()
+        if w[0] in ("atrack", "asrcv"):
+            hd = 3 if w[0] == "atrack" else 7
+            for n in range(1, len(w) - hd + 1):
+                for k in range(0, 3 * n + 6):
+                    out.append("%s %d 0 %s" % (w[0], k, " ".join(w[3:hd] + w[hd:hd + n])))
+            continue
         if w[0] != "ahelp":
             continue
         ops = w[3:]
@@ -453,20 +691,22 @@ def search(ctx, tie_breaks, proof):
 def shrink(ctx, case):
     """helper scripts: delete ops while the implementation still contradicts the property; scenarios are already minimal (scenario, k)"""
     w = case["input"].split()
-    if w[0] != "ahelp":
+    if w[0] not in ("ahelp", "atrack", "asrcv"):
         return case
     from vlib.runner import diff_side
     import props.C18 as me
-    best, ops = case, w[3:]
+    hd = 7 if w[0] == "asrcv" else 3
+    head = " ".join(w[:hd])
+    best, ops = case, w[hd:]
     changed, rounds = True, 0
     while changed and rounds < 10 and len(ops) > 1:
         changed = False; rounds += 1
-        lines = ["ahelp %s %s %s" % (w[1], w[2], " ".join(ops[:i] + ops[i + 1:])) for i in range(len(ops))]
+        lines = ["%s %s" % (head, " ".join(ops[:i] + ops[i + 1:])) for i in range(len(ops))]
         for cc in diff_side(ctx, me, lines):
             v = judge(ctx, cc)
             if v and v[0] == "spec":
                 cc = dict(cc); cc["why"] = v[1]; best = cc
-                ops = cc["input"].split()[3:]
+                ops = cc["input"].split()[hd:]
                 changed = True
                 break
     return best
